@@ -32,7 +32,7 @@ mod imp {
     use shredh::{
         parseqx::{
             assign_access, build_tree, dispatch_controlled, gen_shape, mk_leaf, Caller, DynNode, GenCfg, NodeSpec,
-            PCtx, PLeaf, RunStats, Sched, Timing, TreeSpec,
+            PCtx, PLeaf, RunStats, Sched, Timing, TreeSpec, ZLeaf,
         },
         record::write_events,
         Args,
@@ -202,12 +202,14 @@ mod imp {
                 n_res: rng.gen_range(1..=8),
                 p_conflict: a.num("pconflict", 0.25),
                 p_opt: a.num("popt", 0.12),
+                p_z: a.num("pz", 0.25),
             };
             let mut spec = gen_shape(&mut rng, &cfg);
             assign_access(&mut rng, &mut spec, &cfg);
             let ctx = PCtx::new();
             let mut evs = vec![json!({"ev":"reset","run":run + 1,"mode":"dyn","debug":cfg!(debug_assertions),"tree":spec})];
             tot.trees += 1;
+            shredh::parseqx::zfill(&spec, Some(&ctx));
             let root = build_logged(&spec, &ctx, &mut evs);
             match root {
                 None => tot.with_panics += 1,
@@ -229,6 +231,7 @@ mod imp {
                     drive(root, &spec, &ctx, &pools, threads, caller, setups, scheds, &tm, &mut evs, &mut tot);
                 }
             }
+            shredh::parseqx::zfill(&spec, None);
             if samples.len() < 2 && spec.0.len() <= 12 {
                 samples.push(json!({"tree": spec, "events": evs.iter().skip(1).map(brief).collect::<Vec<_>>()}));
             }
@@ -421,11 +424,12 @@ mod imp {
             for _ in 0..variants {
                 run += 1;
                 let mut spec = TreeSpec(shape.clone());
-                let cfg = GenCfg { max_depth: 0, max_fan: 0, max_leaves: 0, n_res: rng.gen_range(1..=8), p_conflict: a.num("pconflict", 0.2), p_opt: 0.0 };
+                let cfg = GenCfg { max_depth: 0, max_fan: 0, max_leaves: 0, n_res: rng.gen_range(1..=8), p_conflict: a.num("pconflict", 0.2), p_opt: 0.0, p_z: 0.0 };
                 assign_access(&mut rng, &mut spec, &cfg);
                 let ctx = PCtx::new();
                 let mut evs = vec![json!({"ev":"reset","run":run,"mode":"zoo","debug":cfg!(debug_assertions),"tree":spec})];
                 tot.trees += 1;
+                shredh::parseqx::zfill(&spec, Some(&ctx));
                 let mut made = Vec::new();
                 let built = catch_unwind(AssertUnwindSafe(|| {
                     let mut mk = |n: usize| -> PLeaf {
@@ -452,6 +456,7 @@ mod imp {
                         drive(root, &spec, &ctx, &pools, threads, caller, 1, vec![Sched::Random(&mut r2)], &tm, &mut evs, &mut tot);
                     }
                 }
+                shredh::parseqx::zfill(&spec, None);
                 if samples.len() < 2 && spec.0.len() <= 10 {
                     samples.push(json!({"macro_tree": spec, "events": evs.iter().skip(1).map(brief).collect::<Vec<_>>()}));
                 }
@@ -476,8 +481,8 @@ mod imp {
         let pools = Pools::new();
         let mut w = BufWriter::new(File::create(out).unwrap());
         let mut tot = Totals::default();
-        let leaf = |r: Vec<u32>, w: Vec<u32>| NodeSpec { kind: "leaf".into(), kids: vec![], r, w, opt: String::new() };
-        let inner = |kind: &str, kids: Vec<usize>| NodeSpec { kind: kind.into(), kids, r: vec![], w: vec![], opt: String::new() };
+        let leaf = |r: Vec<u32>, w: Vec<u32>| NodeSpec { kind: "leaf".into(), kids: vec![], r, w, opt: String::new(), z: None };
+        let inner = |kind: &str, kids: Vec<usize>| NodeSpec { kind: kind.into(), kids, r: vec![], w: vec![], opt: String::new(), z: None };
         let mut sizes: Vec<u32> = vec![61, 62, 63, 64, 65, 66];
         sizes.push(rng.gen_range(67..=80));
         sizes.push(rng.gen_range(81..=98));
